@@ -131,12 +131,43 @@ def make_subset(st, msgs, kind):
     return msgs[:k] + msgs[k + 1:]
 
 
+def well_formed(full):
+    """Is this set of messages the whole of a finished task?  Decided from the messages alone (levels and
+    statuses), independently of the parser: every action has positions 1..n, a start at 1 and an end at n.
+    (A writer that never wrote some end message has not produced a well-formed task; the statement is about
+    sets of well-formed tasks, nothing is owed for the others except never calling them complete.)"""
+    by_prefix = {}
+    for m in full:
+        lv = tuple(m["task_level"])
+        by_prefix.setdefault(lv[:-1], {})[lv[-1]] = m
+    if () not in by_prefix:
+        return False
+    if len(full) == 1 and full[0]["task_level"] == [1] and "action_status" not in full[0]:
+        return True
+    used = {pre: set(kids) for pre, kids in by_prefix.items()}
+    for pre in by_prefix:
+        if pre:
+            if pre[:-1] not in by_prefix or pre[-1] in by_prefix[pre[:-1]]:
+                return False          # a child action whose parent is missing, or at a position holding a message
+            used[pre[:-1]].add(pre[-1])
+    for pre, kids in by_prefix.items():
+        n = len(used[pre])
+        if sorted(used[pre]) != list(range(1, n + 1)):
+            return False
+        if 1 not in kids or n not in kids:
+            return False
+        if kids[1].get("action_status") != "started" or kids[n].get("action_status") not in ("succeeded", "failed"):
+            return False
+    return True
+
+
 def deliver(msgs, full_by_uuid, what):
     """Feed msgs to Parser.add one by one; check completion timing."""
     from eliot.parse import Parser
     parser = Parser()
     arrived = {}
     returned = {}
+    wf = {}
     for i, m in enumerate(msgs):
         u = m["task_uuid"]
         try:
@@ -146,7 +177,9 @@ def deliver(msgs, full_by_uuid, what):
                             "%s: Parser.add raised %s at step %d: %s" % (what, type(e).__name__, i, str(e)[:300]))
         arrived[u] = arrived.get(u, 0) + 1
         full = len(full_by_uuid[u])
-        should = arrived[u] == full
+        if u not in wf:
+            wf[u] = well_formed(full_by_uuid[u])
+        should = arrived[u] == full and wf[u]
         got = [t for t in done]
         if len(got) > 1:
             raise Violation("completion_timing", "%s: add returned %d tasks at once" % (what, len(got)))
@@ -187,6 +220,63 @@ def deliver(msgs, full_by_uuid, what):
     return out
 
 
+def branching(st, msgs, full_by_uuid):
+    """The parser is a value: Parser.add returns the updated parser and leaves the old one as it was.  One
+    parser that has seen a prefix of the stream is continued twice, with the rest in two different orders; the
+    old value must not change under it, and both continuations must end in the same place, each reporting
+    every task exactly when its last message arrives."""
+    from eliot.parse import Parser
+    if len(msgs) < 3:
+        return
+    k = 1 + st.choose(len(msgs) - 1, "branch-at")
+    prefix, rest = msgs[:k], msgs[k:]
+    parser = Parser()
+    seen = {}
+    done_before = set()
+    for m in prefix:
+        try:
+            done, parser = parser.add(m)
+        except Exception as e:  # noqa
+            raise Violation(("parser_raised", {"exc": type(e).__name__}), "branching prefix: %s" % e)
+        seen[m["task_uuid"]] = seen.get(m["task_uuid"], 0) + 1
+        done_before.update(t.root().task_uuid for t in done)
+
+    def snap(pr):
+        return sorted((t.root().task_uuid, t.is_complete(), repr(t)) for t in pr.incomplete_tasks())
+
+    before = snap(parser)
+    ends = []
+    for name, tail in (("forwards", rest), ("backwards", list(reversed(rest)))):
+        pr = parser
+        arrived = dict(seen)
+        returned = {}
+        for m in tail:
+            u = m["task_uuid"]
+            try:
+                done, pr = pr.add(m)
+            except Exception as e:  # noqa
+                raise Violation(("parser_raised", {"exc": type(e).__name__}), "branching %s: %s" % (name, e))
+            arrived[u] = arrived.get(u, 0) + 1
+            should = arrived[u] == len(full_by_uuid[u]) and well_formed(full_by_uuid[u]) and u not in done_before
+            got = [t.root().task_uuid for t in done]
+            if got and (got != [u] or not should):
+                raise Violation(("completion_timing", {"how": "early"}),
+                                "continuing an older parser value (%s, after %d messages): task %s reported complete "
+                                "after %d of its %d messages" % (name, k, got, arrived[u], len(full_by_uuid[u])))
+            if should and not got:
+                raise Violation(("completion_timing", {"how": "late"}),
+                                "continuing an older parser value (%s): task %s not reported at its last message" % (name, u))
+            for t in done:
+                returned[t.root().task_uuid] = t
+        if snap(parser) != before:
+            raise Violation("parser_not_persistent", "a Parser value changed after a parser derived from it was "
+                            "advanced (%s continuation from message %d)" % (name, k))
+        ends.append((returned, pr))
+    (r1, p1), (r2, p2) = ends
+    if set(r1) != set(r2) or any(not (r1[u] == r2[u]) for u in r1) or not (p1 == p2):
+        raise Violation("order_dependent", "two continuations of one parser value (rest forwards / backwards) end differently")
+
+
 def run_one(seed, dec):
     cfg = draw_cfg(dec.stream("cfg"))
     prog = P.generate(dec.stream("prog"), cfg)
@@ -217,8 +307,8 @@ def oracle(rc):
     for m in msgs:
         full_by_uuid.setdefault(m["task_uuid"], []).append(m)
     # reference: emission order, against the model
-    O.account(msgs, rc.model, lenient=True)
-    O.check_forest(msgs, rc.model, order_free=False, lenient=True, fields=False)
+    O.account(msgs, rc.model, lenient=True, ends=False)
+    O.check_forest(msgs, rc.model, order_free=False, lenient=True, fields=False, status=False, require_complete=False)
     ref = deliver(msgs, full_by_uuid, "emission order")
     h = hashlib.blake2b(digest_size=6)
     kinds = []
@@ -260,6 +350,7 @@ def oracle(rc):
             raise Violation(("parser_raised", {"exc": type(e).__name__}), "%s: parse_stream raised %s" % (what, e))
         if len(streamed) != len(ref) or any(not any(t == r for r in ref.values()) for t in streamed):
             raise Violation("order_dependent", "%s: parse_stream yields a different set of tasks" % what)
+    branching(st, msgs, full_by_uuid)
     for k in range(N_SUBSETS):
         kind = st.choose(5, "subset-kind")
         sub = make_subset(st, msgs, kind)
